@@ -1086,7 +1086,7 @@ def load_corpus():
 
 def run(ctx):
     cases = load_corpus() + product_cases(full=ctx.tier != "quick" or bool(ctx.changed_anchors))
-    for _ in range(ctx.n(90, 2000)):
+    for _ in range(ctx.n(90, 1500)):
         cases.append(random_case(ctx.rng))
     items = []
     seen_tags = set()
